@@ -373,6 +373,9 @@ pub fn run(ctx: &mut Ctx) {
     if mode == "node" {
         return run_node(ctx);
     }
+    if mode == "actor" {
+        return run_actor(ctx);
+    }
     let scratch = Scratch::new();
     for case in ctx.cases(150, 12_000) {
         let mut rng = ctx.rng(case);
@@ -1099,6 +1102,201 @@ fn run_node(ctx: &mut Ctx) {
         }
         if ctx.want_sample() {
             ctx.sample(json!({"case": case, "mode": "node", "script": script, "kill_points": total, "calls": per}));
+        }
+    }
+}
+
+// ---- mode `actor`: the same histories through the store actor --------------------------------
+//
+// The store of a node lives behind the store actor (`SyncHandle`), which adds two promises of its
+// own: `flush_store()` returns when everything acknowledged before it is on disk, and `shutdown()`
+// "triggers a flush on its own" before it hands the store back. The histories of the images mode are
+// issued as requests to an actor over a database file. Images are taken where no write can be in
+// progress: inside the store-access callback (H6; it runs on the actor thread), right after
+// `flush_store` was acknowledged, and after `shutdown` returned (the returned store still alive).
+
+async fn apply_actor(h: &iroh_docs::actor::SyncHandle, op: &Op, t: u64) {
+    use iroh_docs::actor::OpenOpts;
+    iroh_docs::verif::set_clock(t);
+    let nss = [namespace(1), namespace(2)];
+    match op {
+        Op::Insert { doc, author: a, key, content: c } => {
+            let id = nss[*doc].id();
+            if h.open(id, OpenOpts::default()).await.is_ok() {
+                let (hh, l) = content(*c);
+                let _ = h.insert_local(id, author(*a as u8).id(), key.clone().into(), hh, l).await;
+                let _ = h.close(id).await;
+            }
+        }
+        Op::Delete { doc, author: a, key } => {
+            let id = nss[*doc].id();
+            if h.open(id, OpenOpts::default()).await.is_ok() {
+                let _ = h.delete_prefix(id, author(*a as u8).id(), key.clone().into()).await;
+                let _ = h.close(id).await;
+            }
+        }
+        Op::Remote { doc, author: a, key, back, content: c } => {
+            let id = nss[*doc].id();
+            let rec = match c {
+                None => iroh_docs::Record::empty(t - back),
+                Some(i) => {
+                    let (hh, l) = content(*i);
+                    iroh_docs::Record::new(hh, l, t - back)
+                }
+            };
+            let e = SignedEntry::from_parts(&nss[*doc], &author(*a as u8), key, rec);
+            if h.open(id, OpenOpts::default().sync()).await.is_ok() {
+                let _ = h.insert_remote(id, e, [1u8; 32], ContentStatus::Complete).await;
+                let _ = h.close(id).await;
+            }
+        }
+        Op::ImportAuthor(a) => {
+            let _ = h.import_author(author(*a as u8)).await;
+        }
+        Op::ImportDoc(d) => {
+            let _ = h.import_namespace(Capability::Write(nss[*d].clone())).await;
+        }
+        Op::Policy { doc, n } => {
+            let f: Vec<FilterKind> = (0..*n).map(|i| FilterKind::Prefix(vec![b'a' + i as u8].into())).collect();
+            let _ = h.set_download_policy(nss[*doc].id(), DownloadPolicy::NothingExcept(f)).await;
+        }
+        Op::Peer { doc, peer } => {
+            let _ = h.register_useful_peer(nss[*doc].id(), [*peer + 1; 32]).await;
+        }
+        Op::Flush => {
+            let _ = h.flush_store().await;
+        }
+        Op::Scan { doc } => {
+            let id = nss[*doc].id();
+            if h.open(id, OpenOpts::default()).await.is_ok() {
+                let _ = crate::act::get_many(h, id, Query::all().build()).await;
+                let _ = h.close(id).await;
+            }
+        }
+        Op::List => {
+            let (tx, mut rx) = irpc::channel::mpsc::channel::<iroh_docs::api::RpcResult<iroh_docs::api::protocol::ListResponse>>(64);
+            let _ = h.list_replicas(tx).await;
+            while let Ok(Some(_)) = rx.recv().await {}
+            let (tx, mut rx) = irpc::channel::mpsc::channel::<iroh_docs::api::RpcResult<iroh_docs::api::protocol::AuthorListResponse>>(64);
+            let _ = h.list_authors(tx).await;
+            while let Ok(Some(_)) = rx.recv().await {}
+        }
+        Op::Hashes => {
+            if let Ok(it) = h.content_hashes().await {
+                let _ = it.count();
+            }
+        }
+        Op::RemoveDoc(d) => {
+            let _ = h.drop_replica(nss[*d].id()).await;
+        }
+    }
+    iroh_docs::verif::set_clock(0);
+}
+
+fn run_actor(ctx: &mut Ctx) {
+    let scratch = Scratch::new();
+    let rt = crate::act::runtime(1);
+    for case in ctx.cases(60, 6_000) {
+        let mut rng = ctx.rng(case);
+        let n = rng.range(6, 25);
+        let ops = gen_history(&mut rng, n);
+        let base = crate::gen::t0();
+        let states = shadow_states(&ops, base);
+        ctx.eval();
+        ctx.nontrivial(h64(format!("{ops:?}").as_bytes()));
+        for placement in ["actor:no-ageing", "actor:aged-at-every-access"] {
+            let aged = placement.ends_with("every-access");
+            let path = scratch.path("actor");
+            let store = Store::persistent(&path).expect("create");
+            let h = crate::act::spawn(store);
+            let images: Arc<Mutex<Vec<(PathBuf, usize)>>> = Default::default();
+            let cur_op: Arc<Mutex<usize>> = Arc::new(Mutex::new(0));
+            let first_access = Arc::new(Mutex::new(0usize));
+            {
+                let images = images.clone();
+                let db = path.clone();
+                let dir = scratch.dir.path().to_path_buf();
+                let cur_op = cur_op.clone();
+                let first_access = first_access.clone();
+                let counter = Arc::new(Mutex::new(0usize));
+                // one access in three is imaged without ageing (images cost a file copy each)
+                let mut pick = Rng::from_parts(&[case, 0xAC7]);
+                iroh_docs::verif::set_access_callback(Some(Box::new(move |n| {
+                    let op = *cur_op.lock().unwrap();
+                    if op == 0 {
+                        return;
+                    }
+                    let within = n - *first_access.lock().unwrap();
+                    if aged || pick.chance(1, 3) {
+                        let mut c = counter.lock().unwrap();
+                        *c += 1;
+                        let ipath = dir.join(format!("act-{}-{}.redb", n, *c));
+                        if std::fs::copy(&db, &ipath).is_ok() {
+                            images.lock().unwrap().push((ipath, within));
+                        }
+                    }
+                    if aged {
+                        iroh_docs::verif::age_transaction_at(n + 1);
+                    }
+                })));
+            }
+            let mut last_commit = 0;
+            let mut ok = true;
+            for (i, op) in ops.iter().enumerate() {
+                *cur_op.lock().unwrap() = i + 1;
+                let start = iroh_docs::verif::store_accesses();
+                *first_access.lock().unwrap() = start;
+                if aged {
+                    iroh_docs::verif::age_transaction_at(start);
+                }
+                rt.block_on(apply_actor(&h, op, base + 10 * (i as u64 + 1)));
+                *cur_op.lock().unwrap() = 0;
+                iroh_docs::verif::age_transaction_at(usize::MAX);
+                let taken: Vec<(PathBuf, usize)> = std::mem::take(&mut *images.lock().unwrap());
+                for (ipath, within) in taken {
+                    let img = Image { path: ipath, op_in_progress: Some(i + 1), completed: i, last_commit_op: last_commit, access: Some(within) };
+                    if ok && !check_image(ctx, case, &img, &states, &ops, placement) {
+                        ok = false;
+                    } else {
+                        let _ = std::fs::remove_file(&img.path);
+                    }
+                }
+                if aged {
+                    last_commit = i;
+                }
+                if matches!(op, Op::Flush) {
+                    // acknowledged flush: everything before it is on disk; the actor is idle now
+                    last_commit = i + 1;
+                    let ipath = scratch.path("img-flush");
+                    std::fs::copy(&path, &ipath).expect("copy image");
+                    let img = Image { path: ipath, op_in_progress: None, completed: i + 1, last_commit_op: last_commit, access: None };
+                    if ok && !check_image(ctx, case, &img, &states, &ops, "actor:after-flush_store") {
+                        ok = false;
+                    }
+                }
+                if !ok {
+                    break;
+                }
+            }
+            iroh_docs::verif::set_access_callback(None);
+            iroh_docs::verif::age_transaction_at(usize::MAX);
+            // shutdown hands the store back after flushing: the file must hold the final state while
+            // the returned store is still alive
+            let returned = rt.block_on(h.shutdown());
+            if ok {
+                match returned {
+                    Ok(store) => {
+                        let ipath = scratch.path("img-shutdown");
+                        std::fs::copy(&path, &ipath).expect("copy image");
+                        let img = Image { path: ipath, op_in_progress: None, completed: ops.len(), last_commit_op: ops.len(), access: None };
+                        check_image(ctx, case, &img, &states, &ops, "actor:after-shutdown");
+                        drop(store);
+                    }
+                    Err(e) => ctx.violation(case, "actor-shutdown-failed", json!(format!("{e:?}"))),
+                }
+            }
+            drop(h);
+            let _ = std::fs::remove_file(&path);
         }
     }
 }
